@@ -126,6 +126,14 @@ def _superpose_body(col, p, integrate, dense, thetas, coefs, shape, N, d):
         phi1 = e.reshape(shape)
         cache1 = {th: integrate(phi1, th) for th in thetas}
         col.tick(transitions=3)
+        if d >= 2 and (j - lo) < 4:
+            # the same density held in another memory layout (what PhiManip.reorder_pops returns): superposition is about values, not layout
+            view = np.asfortranarray(phi1)
+            alt = integrate(view, thetas[1])
+            col.tick(transitions=1)
+            e_l = float(np.abs(alt - cache1[thetas[1]]).max())
+            if not e_l <= 1e-11 * max(1.0, float(np.abs(cache1[thetas[1]]).max())):
+                col.violation('C03:superposition:int%dD:depends_on_memory_layout' % d, dict(p, unit=j), {'maxerr': e_l})
         for (a, b), th1, th2 in itertools.product(coefs, thetas, thetas):
             lhs = integrate(a * phi1 + b * dense, a * th1 + b * th2)
             rhs = a * cache1[th1] + b * cache2[th2]
